@@ -185,12 +185,15 @@ class Gen:
                         if self.chance(0.5):
                             s['subcat'] = [f['id'] for f in r.sample(frames, r.randint(1, len(frames)))]
         else:
+            # WN-LMF 1.0: frames on entries; the same few frame strings recur on several
+            # entries, with and without an explicit list of senses
+            pool = ['Somebody ----s frame 0 <&>', 'Somebody ----s frame 1 <&>', 'Something ----s frame 2']
             for e in verbs:
-                if self.chance(0.5):
+                if self.chance(0.8):
                     fr = []
-                    for k in range(r.randint(1, 2)):
-                        f = {'subcategorizationFrame': f'Somebody ----s frame {k} <&>'}
-                        if self.chance(0.5):
+                    for text in r.sample(pool, r.randint(1, 3)):
+                        f = {'subcategorizationFrame': text}
+                        if self.chance(0.3):
                             f['senses'] = [s['id'] for s in r.sample(e['senses'], r.randint(1, len(e['senses'])))]
                         fr.append(f)
                     e['frames'] = fr
